@@ -330,4 +330,241 @@ theorem goUnix_milli (ts : Int) :
     simp only [c1, if_false]
     refine ⟨by omega, by omega, by omega, by omega⟩
 
+/-! ## base58 round trip -/
+
+def b58Step (a : Nat) (c : UInt8) : Nat := a * 58 + b58Alphabet.idxOf c
+
+theorem b58Char_facts : ∀ d, d < 58 → (b58Char d).toNat < 128 ∧ b58Index (b58Char d) = some d ∧ b58Alphabet.idxOf (b58Char d) = d ∧
+    (0 < d → b58Char d ≠ 49) := by decide
+
+def B58Valid (s : Bytes) : Prop := ∀ c ∈ s, ∃ d, d < 58 ∧ c = b58Char d
+
+theorem b58Chunk_valid : ∀ (cs : Bytes) (acc : Nat), B58Valid cs → b58Chunk cs acc = some (some (cs.foldl b58Step acc))
+  | [], acc, _ => rfl
+  | c :: cs, acc, hv => by
+    obtain ⟨d, hd, rfl⟩ := hv c (by simp)
+    obtain ⟨h1, h2, h3, _⟩ := b58Char_facts d hd
+    have hv' : B58Valid cs := fun x hx => hv x (List.mem_cons_of_mem _ hx)
+    simp only [b58Chunk, h1, if_true, h2, List.foldl_cons, b58Step, h3]
+    exact b58Chunk_valid cs (acc * 58 + d) hv'
+
+theorem foldl_b58Step_shift : ∀ (cs : Bytes) (acc : Nat), cs.foldl b58Step acc = acc * 58 ^ cs.length + cs.foldl b58Step 0
+  | [], acc => by simp
+  | c :: cs, acc => by
+    simp only [List.foldl_cons, List.length_cons]
+    rw [foldl_b58Step_shift cs (b58Step acc c), foldl_b58Step_shift cs (b58Step 0 c)]
+    simp only [b58Step, Nat.pow_succ]
+    grind
+
+
+theorem B58Valid.take {s : Bytes} (h : B58Valid s) (k : Nat) : B58Valid (s.take k) :=
+  fun c hc => h c (List.mem_of_mem_take hc)
+theorem B58Valid.drop {s : Bytes} (h : B58Valid s) (k : Nat) : B58Valid (s.drop k) :=
+  fun c hc => h c (List.mem_of_mem_drop hc)
+
+theorem b58Chunks_valid : ∀ (fuel : Nat) (t : Bytes) (acc : Nat), t.length < fuel → B58Valid t →
+    b58Chunks fuel t acc = some (some (t.foldl b58Step acc))
+  | 0, t, acc, h, _ => by omega
+  | fuel + 1, t, acc, hlen, hv => by
+    unfold b58Chunks
+    by_cases ht : t = []
+    · subst ht; simp
+    · rw [if_neg ht, b58Chunk_valid _ 0 (hv.take 10)]
+      simp only
+      have hdl : (t.drop 10).length < fuel := by
+        have : 0 < t.length := List.length_pos_iff.mpr ht
+        simp only [List.length_drop]; omega
+      rw [b58Chunks_valid fuel (t.drop 10) _ hdl (hv.drop 10), ← foldl_b58Step_shift]
+      rw [← List.foldl_append, List.take_append_drop]
+
+
+/-- value of a least-significant-first base-58 digit list -/
+def valLSB (ds : List Nat) : Nat := ds.foldr (fun d a => d + 58 * a) 0
+
+theorem digits58F_zero (fuel : Nat) : digits58F fuel 0 = [] := by
+  cases fuel <;> simp [digits58F]
+
+theorem digits58F_spec : ∀ (fuel n : Nat), n ≤ fuel →
+    valLSB (digits58F fuel n) = n ∧ (∀ d ∈ digits58F fuel n, d < 58) ∧ (∀ d, (digits58F fuel n).getLast? = some d → d ≠ 0)
+  | 0, n, h => by
+    have : n = 0 := by omega
+    subst this; simp [digits58F, valLSB]
+  | fuel + 1, n, h => by
+    rw [digits58F]
+    split
+    · rename_i hz; subst hz; simp [valLSB]
+    · rename_i hz
+      obtain ⟨h1, h2, h3⟩ := digits58F_spec fuel (n / 58) (by omega)
+      refine ⟨?_, ?_, ?_⟩
+      · simp only [valLSB, List.foldr_cons] at h1 ⊢; rw [h1]; omega
+      · intro d hd
+        simp only [List.mem_cons] at hd
+        rcases hd with rfl | hd
+        · exact Nat.mod_lt _ (by omega)
+        · exact h2 d hd
+      · intro d hd
+        cases hr : digits58F fuel (n / 58) with
+        | nil =>
+          rw [hr] at hd; simp at hd
+          have : n / 58 = 0 := by
+            have := h1; rw [hr] at this; simp [valLSB] at this; omega
+          omega
+        | cons a t =>
+          rw [hr] at hd h3
+          rw [List.getLast?_cons_cons] at hd
+          exact h3 d hd
+
+theorem foldl_b58Step_digits : ∀ (ds : List Nat), (∀ d ∈ ds, d < 58) →
+    (ds.reverse.map b58Char).foldl b58Step 0 = valLSB ds
+  | [], _ => rfl
+  | d :: ds, h => by
+    have hd := (b58Char_facts d (h d (by simp))).2.2.1
+    have ih := foldl_b58Step_digits ds (fun x hx => h x (List.mem_cons_of_mem _ hx))
+    simp only [List.reverse_cons, List.map_append, List.map_cons, List.map_nil, List.foldl_append, List.foldl_cons, List.foldl_nil, ih]
+    simp only [b58Step, hd, valLSB, List.foldr_cons]
+    omega
+
+theorem foldl_b58Step_ones (z : Nat) (rest : Bytes) :
+    (List.replicate z (49 : UInt8) ++ rest).foldl b58Step 0 = rest.foldl b58Step 0 := by
+  induction z with
+  | zero => simp
+  | succ z ih =>
+    have : b58Step 0 49 = 0 := by decide
+    simp only [List.replicate_succ, List.cons_append, List.foldl_cons, this]
+    exact ih
+
+theorem takeWhile_ones (z : Nat) (rest : Bytes) (h : ∀ c, rest.head? = some c → c ≠ 49) :
+    (List.replicate z (49 : UInt8) ++ rest).takeWhile (· == 49) = List.replicate z 49 := by
+  induction z with
+  | zero =>
+    cases rest with
+    | nil => rfl
+    | cons c t =>
+      have := h c rfl
+      simp [this]
+  | succ z ih => simp [List.replicate_succ, ih]
+
+
+theorem natBytesF_zero (fuel : Nat) : natBytesF fuel 0 = [] := by
+  cases fuel <;> simp [natBytesF]
+
+theorem unbe_cons_zero (bs : Bytes) : unbe ((0 : UInt8) :: bs) = unbe bs := by
+  simp [unbe]
+
+theorem unbe_pos_of_head : ∀ (bs : Bytes), (∃ c t, bs = c :: t ∧ c ≠ 0) → 0 < unbe bs := by
+  intro bs
+  induction bs using snoc_induction with
+  | hnil => rintro ⟨c, t, h, _⟩; cases h
+  | hsnoc bs x ih =>
+    rintro ⟨c, t, h, hc⟩
+    rw [unbe_append_singleton]
+    cases bs with
+    | nil =>
+      have hxc : x = c := by simp at h; exact h.1
+      subst hxc
+      have : x.toNat ≠ 0 := by
+        intro h0; apply hc; exact UInt8.toNat_inj.mp (by simpa using h0)
+      simp [unbe]; omega
+    | cons a r =>
+      have : 0 < unbe (a :: r) := ih ⟨a, r, rfl, by simp at h; rw [h.1]; exact hc⟩
+      omega
+
+/-- `big.Int.Bytes` of the value of a byte string without leading zero is that byte string. -/
+theorem natBytesF_unbe : ∀ (bs : Bytes) (fuel : Nat), (∀ c, bs.head? = some c → c ≠ 0) → unbe bs ≤ fuel →
+    natBytesF fuel (unbe bs) = bs := by
+  intro bs
+  induction bs using snoc_induction with
+  | hnil => intro fuel _ _; simp [natBytesF_zero]
+  | hsnoc bs x ih =>
+    intro fuel hh hf
+    have hx : x.toNat < 256 := x.toNat_lt
+    rw [unbe_append_singleton] at hf ⊢
+    have hpos : 0 < unbe bs * 256 + x.toNat := by
+      cases bs with
+      | nil =>
+        have hx0 := hh x (by simp)
+        have : x.toNat ≠ 0 := by
+          intro h0; apply hx0; exact UInt8.toNat_inj.mp (by simpa using h0)
+        simp [unbe]; omega
+      | cons a r =>
+        have : 0 < unbe (a :: r) := unbe_pos_of_head _ ⟨a, r, rfl, hh a (by simp)⟩
+        omega
+    cases fuel with
+    | zero => omega
+    | succ fuel =>
+      rw [natBytesF, if_neg (by omega)]
+      have d1 : (unbe bs * 256 + x.toNat) / 256 = unbe bs := by omega
+      have d2 : (unbe bs * 256 + x.toNat) % 256 = x.toNat := by omega
+      rw [d1, d2, UInt8.ofNat_toNat]
+      rw [ih fuel ?_ (by omega)]
+      intro c hc
+      cases bs with
+      | nil => simp at hc
+      | cons a r => exact hh c (by simpa using hc)
+
+theorem takeWhile_zero_eq_replicate (b : Bytes) : b.takeWhile (· == 0) = List.replicate (leadingZeros b) 0 := by
+  unfold leadingZeros
+  induction b with
+  | nil => rfl
+  | cons c t ih =>
+    by_cases hc : c = 0
+    · subst hc; simp [List.takeWhile, List.replicate_succ]; exact ih
+    · have hb : (c == 0) = false := beq_eq_false_iff_ne.mpr hc
+      simp [List.takeWhile, hb]
+
+theorem unbe_dropWhile_zero (b : Bytes) : unbe (b.dropWhile (· == 0)) = unbe b := by
+  induction b with
+  | nil => rfl
+  | cons c t ih =>
+    by_cases hc : c = 0
+    · subst hc; simp [List.dropWhile, unbe_cons_zero]; exact ih
+    · have hb : (c == 0) = false := beq_eq_false_iff_ne.mpr hc
+      simp [List.dropWhile, hb]
+
+theorem head_dropWhile_zero (b : Bytes) : ∀ c, (b.dropWhile (· == 0)).head? = some c → c ≠ 0 := by
+  induction b with
+  | nil => intro c h; simp at h
+  | cons x t ih =>
+    intro c h
+    by_cases hx : x = 0
+    · subst hx; simp [List.dropWhile] at h; exact ih c h
+    · have hb : (x == 0) = false := beq_eq_false_iff_ne.mpr hx
+      simp [List.dropWhile, hb] at h; rw [← h]; exact hx
+
+/-- **base58 round trip** (btcutil model): `Decode(Encode(b)) = b` for every byte string. -/
+theorem b58Decode_b58Encode (b : Bytes) : b58Decode (b58Encode b) = .ok b := by
+  obtain ⟨hval, hlt, hlast⟩ := digits58F_spec (unbe b) (unbe b) (Nat.le_refl _)
+  have hvalid : B58Valid (b58Encode b) := by
+    intro c hc
+    simp only [b58Encode, List.mem_append, List.mem_replicate, List.mem_map, List.mem_reverse] at hc
+    rcases hc with ⟨_, rfl⟩ | ⟨d, hd, rfl⟩
+    · exact ⟨0, by omega, by decide⟩
+    · exact ⟨d, hlt d hd, rfl⟩
+  have hfold : (b58Encode b).foldl b58Step 0 = unbe b := by
+    unfold b58Encode
+    rw [foldl_b58Step_ones, digits58, foldl_b58Step_digits _ hlt, hval]
+  have hones : (b58Encode b).takeWhile (· == 49) = List.replicate (leadingZeros b) 49 := by
+    unfold b58Encode
+    apply takeWhile_ones
+    intro c hc
+    rw [digits58, List.head?_map, List.head?_reverse] at hc
+    cases hl : (digits58F (unbe b) (unbe b)).getLast? with
+    | none => rw [hl] at hc; simp at hc
+    | some d =>
+      rw [hl] at hc; simp at hc
+      have hd0 := hlast d hl
+      have hdm : d ∈ digits58F (unbe b) (unbe b) := List.mem_of_getLast? hl
+      rw [← hc]
+      exact (b58Char_facts d (hlt d hdm)).2.2.2 (by omega)
+  unfold b58Decode
+  rw [b58Chunks_valid _ _ 0 (by omega) hvalid, hfold, hones]
+  simp only [List.length_replicate]
+  have hsplit : b = List.replicate (leadingZeros b) 0 ++ b.dropWhile (· == 0) := by
+    rw [← takeWhile_zero_eq_replicate, List.takeWhile_append_dropWhile]
+  have hnb : natBytes (unbe b) = b.dropWhile (· == 0) := by
+    unfold natBytes
+    have := natBytesF_unbe (b.dropWhile (· == 0)) (unbe b) (head_dropWhile_zero b) (by rw [unbe_dropWhile_zero]; exact Nat.le_refl _)
+    rwa [unbe_dropWhile_zero] at this
+  rw [hnb, ← hsplit]
+
 end Whv.AlphUtil
